@@ -93,6 +93,12 @@ class TaskyUserErr(UserErr):
         self._task = "job-17"
 
 
+class TypedUserErr(UserErr):
+    """A user exception whose class has an attribute of its own called _type_ (say, a wire-format tag)."""
+
+    _type_ = "remote"
+
+
 class UserBaseErr(BaseException):
     def __init__(self, tag):
         BaseException.__init__(self, tag)
@@ -111,6 +117,8 @@ def make_user_exc(cls, tag):
         return FrozenUserErr(tag)
     if cls == "tasky":
         return TaskyUserErr(tag)
+    if cls == "typed":
+        return TypedUserErr(tag)
     return UserErr(tag)
 
 
